@@ -1243,7 +1243,7 @@ Qed.
 Lemma refresh_fresh w parent all tip p km :
   Fresh w -> Fresh (refresh w parent all tip p km) /\ child_le w (refresh w parent all tip p km).
 Proof.
-  intros [Hfo Hfc]. unfold refresh.
+  intros [Hfo Hfc]. unfold refresh, refresh_apply.
   set (qs := refresh_set w parent all). set (rev := reverted_ids w parent qs p km).
   assert (Hfold : forall l w0, keys_ok (key_below w) (w_outs w0) -> w_ctxs w0 = w_ctxs w ->
             w_child w0 = w_child w ->
@@ -1430,7 +1430,7 @@ Qed.
 
 Lemma refresh_wf w parent all tip p km : WF w -> WF (refresh w parent all tip p km).
 Proof.
-  intros Hn. unfold refresh.
+  intros Hn. unfold refresh, refresh_apply.
   set (qs := refresh_set w parent all). set (rev := reverted_ids w parent qs p km).
   assert (Hfold : forall l w0, WF w0 -> WF (fold_left (apply_one parent tip p rev) l w0)).
   { induction l as [|q r IH]; intros w0 H0; cbn [fold_left]; [exact H0|].
@@ -1503,4 +1503,263 @@ Proof.
   intros ops. assert (H : forall ops w, WF w -> WF (run w ops)).
   { induction ops0 as [|o r IH]; intros w Hw; cbn [run fold_left]; [exact Hw|]. apply IH. now apply step_wf. }
   apply H. unfold WF. cbn. constructor.
+Qed.
+
+(* ------------------------------------------------------------------ C04: balances partition *)
+
+Lemma sumN_filter_split {A} (f : A -> N) (p : A -> bool) l :
+  sumN (map f l) = sumN (map f (filter p l)) + sumN (map f (filter (fun x => negb (p x)) l)).
+Proof.
+  induction l as [|x r IH]; cbn [map filter sumN]; [reflexivity|].
+  destruct (p x); cbn [negb map sumN]; lia.
+Qed.
+
+Definition all_buckets := [BSpendable; BImmature; BAwaitConf; BAwaitFinal; BLocked; BReverted; BNone].
+
+Lemma bucket_eqb_eq a b : bucket_eqb a b = true <-> a = b.
+Proof. destruct a, b; cbn; split; intros H; try discriminate; reflexivity. Qed.
+
+(** every output of the account falls in exactly one bucket, so the seven bucket sums add
+    up to the total value of the account's records *)
+Theorem buckets_partition outs parent h minconf :
+  sumN (map (fun b => bucket_sum outs parent h minconf b) all_buckets)
+  = sumN (map r_value (filter (fun o => r_root o =? parent) outs)).
+Proof.
+  unfold bucket_sum, all_buckets. cbn [map sumN].
+  induction outs as [|o r IH]; cbn [filter map sumN]; [reflexivity|].
+  destruct (r_root o =? parent) eqn:E; cbn [andb]; [|exact IH].
+  destruct (bucket_of o h minconf); cbn [bucket_eqb filter map sumN]; lia.
+Qed.
+
+(** the reported figures, when nothing saturates: total = spendable + awaiting confirmation
+    + immature; the six figures are the six bucket sums *)
+Theorem retrieve_info_partition w parent minconf :
+  let h := lookup (w_confh w) (w_active w) in
+  let s := bucket_sum (w_outs w) parent h minconf in
+  s BSpendable + s BAwaitConf + s BImmature <= U64MAX ->
+  s BAwaitFinal <= U64MAX -> s BLocked <= U64MAX -> s BReverted <= U64MAX ->
+  let i := retrieve_info w parent minconf in
+  i_spendable i = s BSpendable /\ i_awaiting_confirmation i = s BAwaitConf
+  /\ i_immature i = s BImmature /\ i_awaiting_finalization i = s BAwaitFinal
+  /\ i_locked i = s BLocked /\ i_reverted i = s BReverted
+  /\ i_total i = i_spendable i + i_awaiting_confirmation i + i_immature i.
+Proof.
+  cbn zeta. intros H1 H2 H3 H4. unfold retrieve_info, sat, sat_add. cbn [i_spendable
+    i_awaiting_confirmation i_immature i_awaiting_finalization i_locked i_reverted i_total].
+  repeat split; lia.
+Qed.
+
+(** which bucket: the classification by status, maturity and confirmations *)
+Theorem bucket_classification o h minconf :
+  match bucket_of o h minconf with
+  | BSpendable => r_status o = Unspent /\ (r_cb o = true -> r_lock o <= h) /\ minconf <= num_conf o h
+  | BImmature => r_status o = Unspent /\ r_cb o = true /\ h < r_lock o
+  | BAwaitConf => (r_status o = Unspent /\ num_conf o h < minconf)
+                  \/ (r_status o = Unconfirmed /\ r_cb o = false /\ minconf = 0)
+  | BAwaitFinal => r_status o = Unconfirmed /\ r_cb o = false /\ minconf <> 0
+  | BLocked => r_status o = Locked
+  | BReverted => r_status o = Reverted
+  | BNone => r_status o = Spent \/ (r_status o = Unconfirmed /\ r_cb o = true)
+  end.
+Proof.
+  unfold bucket_of. destruct (r_status o) eqn:Es.
+  - destruct (r_cb o) eqn:Ec; [right; auto|]. destruct (minconf =? 0) eqn:E; [right|]; repeat split; auto; lia.
+  - destruct (r_cb o && (h <? r_lock o)) eqn:E1.
+    + apply andb_true_iff in E1 as [A B]. repeat split; auto; lia.
+    + destruct (num_conf o h <? minconf) eqn:E2.
+      * left; split; [reflexivity|lia].
+      * split; [reflexivity|split; [intros Hc; rewrite Hc in E1; cbn in E1; lia|lia]].
+  - reflexivity.
+  - left; reflexivity.
+  - reflexivity.
+Qed.
+
+(** Reverted, Locked, Spent and unconfirmed-coinbase values never count as spendable or
+    in the total (C18: a reverted output is excluded from both). *)
+Theorem reverted_not_counted o h minconf :
+  r_status o = Reverted -> bucket_of o h minconf = BReverted.
+Proof. unfold bucket_of. intros ->. reflexivity. Qed.
+
+(* ------------------------------------------------------------------ C04: refresh is exact *)
+
+Definition refreshed_status (p : presence) (reverted : list N) (o : orec) : status :=
+  match present_height p (r_key o) (r_mmr o) with
+  | Some _ => mark_unspent (r_status o)
+  | None =>
+    if negb (r_cb o) && match r_tx o with Some i => existsb (N.eqb i) reverted | None => false end
+    then mark_reverted (r_status o) else mark_spent (r_status o)
+  end.
+
+Lemma apply_one_get_other parent tip p rev w q k m :
+  ~ (r_key q = k /\ r_mmr q = m) ->
+  get_out (w_outs (apply_one parent tip p rev w q)) k m = get_out (w_outs w) k m.
+Proof.
+  intros Hne. unfold apply_one.
+  destruct (get_out (w_outs w) (r_key q) (r_mmr q)) as [o|] eqn:Eg; [|reflexivity].
+  apply get_out_in in Eg as [_ [Hk Hm]].
+  assert (Hno : forall o', r_key o' = r_key o -> r_mmr o' = r_mmr o -> ~ same_key o' k m).
+  { intros o' A B [C D]. apply Hne. split; congruence. }
+  destruct (present_height p (r_key q) (r_mmr q)) as [h|].
+  - destruct (r_cb o && status_eqb (r_status o) Unconfirmed).
+    + unfold next_log_id. cbn zeta.
+      match goal with |- context [if ?b then _ else _] => destruct b end;
+        [destruct (find _ _)|]; cbn [w_outs with_outs with_log with_logid];
+        (rewrite get_save_other; [reflexivity|apply Hno; destruct o; reflexivity]).
+    + match goal with |- context [if ?b then _ else _] => destruct b end;
+        [destruct (find _ _)|]; cbn [w_outs with_outs with_log with_logid];
+        (rewrite get_save_other; [reflexivity|apply Hno; destruct o; reflexivity]).
+  - cbn [w_outs with_outs]. rewrite get_save_other; [reflexivity|apply Hno; destruct o; reflexivity].
+Qed.
+
+Lemma apply_one_get_same parent tip p rev w q o :
+  get_out (w_outs w) (r_key q) (r_mmr q) = Some o ->
+  exists o', get_out (w_outs (apply_one parent tip p rev w q)) (r_key q) (r_mmr q) = Some o'
+    /\ r_status o' = refreshed_status p rev o /\ r_value o' = r_value o /\ r_root o' = r_root o
+    /\ r_key o' = r_key o /\ r_mmr o' = r_mmr o /\ r_cb o' = r_cb o.
+Proof.
+  intros Eg. unfold apply_one. rewrite Eg.
+  pose proof (get_out_in _ _ _ _ Eg) as [_ [Hk Hm]].
+  unfold refreshed_status. rewrite Hk, Hm.
+  destruct (present_height p (r_key q) (r_mmr q)) as [h|].
+  - destruct (r_cb o && status_eqb (r_status o) Unconfirmed) eqn:Ecb.
+    + unfold next_log_id. cbn zeta.
+      match goal with |- context [if ?b then _ else _] => destruct b end;
+        [destruct (find _ _)|]; cbn [w_outs with_outs with_log with_logid];
+        (eexists; split; [rewrite <- Hk, <- Hm;
+           match goal with |- get_out (save_out _ ?x) _ _ = _ =>
+             replace (r_key o) with (r_key x) by (destruct o; reflexivity);
+             replace (r_mmr o) with (r_mmr x) by (destruct o; reflexivity); apply get_save_same end
+         |destruct o; cbn in *; repeat split; auto]).
+    + match goal with |- context [if ?b then _ else _] => destruct b end;
+        [destruct (find _ _)|]; cbn [w_outs with_outs with_log with_logid];
+        (eexists; split; [rewrite <- Hk, <- Hm;
+           match goal with |- get_out (save_out _ ?x) _ _ = _ =>
+             replace (r_key o) with (r_key x) by (destruct o; reflexivity);
+             replace (r_mmr o) with (r_mmr x) by (destruct o; reflexivity); apply get_save_same end
+         |destruct o; cbn in *; repeat split; auto]).
+  - cbn [w_outs with_outs].
+    eexists; split; [rewrite <- Hk, <- Hm;
+       match goal with |- get_out (save_out _ ?x) _ _ = _ =>
+         replace (r_key o) with (r_key x) by (destruct o; reflexivity);
+         replace (r_mmr o) with (r_mmr x) by (destruct o; reflexivity); apply get_save_same end
+     |destruct o; cbn in *; repeat split; auto].
+Qed.
+
+Lemma fold_apply_get_other parent tip p rev : forall l w k m,
+  (forall q, In q l -> ~ (r_key q = k /\ r_mmr q = m)) ->
+  get_out (w_outs (fold_left (apply_one parent tip p rev) l w)) k m = get_out (w_outs w) k m.
+Proof.
+  induction l as [|q r IH]; intros w k m Hn; cbn [fold_left]; [reflexivity|].
+  rewrite IH by (intros q' Hq; apply Hn; now right).
+  apply apply_one_get_other. apply Hn. now left.
+Qed.
+
+(** after the loop of apply_api_outputs, the record of every queried output has exactly the
+    status the node's answer dictates; its value, owner, key and coinbase flag are unchanged *)
+Lemma fold_apply_exact parent tip p rev : forall l w,
+  NoDup (map okey l) ->
+  (forall q, In q l -> get_out (w_outs w) (r_key q) (r_mmr q) = Some q) ->
+  forall q, In q l ->
+  exists o', get_out (w_outs (fold_left (apply_one parent tip p rev) l w)) (r_key q) (r_mmr q) = Some o'
+    /\ r_status o' = refreshed_status p rev q /\ r_value o' = r_value q /\ r_root o' = r_root q
+    /\ r_cb o' = r_cb q.
+Proof.
+  induction l as [|q0 r IH]; intros w Hn Hg q Hin; [contradiction|].
+  cbn [fold_left]. inversion Hn as [|? ? Hq0 Hr]; subst.
+  destruct Hin as [<-|Hin].
+  - (* the head: processed now, untouched by the rest *)
+    rewrite fold_apply_get_other.
+    + destruct (apply_one_get_same parent tip p rev w q0 q0 (Hg q0 (or_introl eq_refl)))
+        as (o' & A & B & C & D & _ & _ & E). exists o'. auto.
+    + intros q' Hq' [A B]. apply Hq0. apply in_map_iff. exists q'. split; [|exact Hq'].
+      unfold okey. congruence.
+  - apply IH; auto.
+    intros q' Hq'. rewrite apply_one_get_other; [apply Hg; now right|].
+    intros [A B]. apply Hq0. apply in_map_iff. exists q'. split; [|exact Hq']. unfold okey. congruence.
+Qed.
+
+Lemma nodup_filter_keys (f : orec -> bool) l : NoDup (map okey l) -> NoDup (map okey (filter f l)).
+Proof.
+  induction l as [|o r IH]; cbn [filter map]; intros Hn; [constructor|].
+  inversion Hn as [|? ? Ho Hr]; subst. destruct (f o); cbn [map]; auto.
+  constructor; auto. intros Hin. apply Ho. apply in_map_iff in Hin as (y & Hy & Hin).
+  apply filter_In in Hin as [Hin _]. apply in_map_iff; eauto.
+Qed.
+
+Lemma get_out_of_in l o : NoDup (map okey l) -> In o l -> get_out l (r_key o) (r_mmr o) = Some o.
+Proof.
+  induction l as [|x r IH]; intros Hn Hin; [contradiction|]. cbn [get_out].
+  inversion Hn as [|? ? Hx Hr]; subst. destruct Hin as [->|Hin].
+  - assert (E : okey_eqb o (r_key o) (r_mmr o) = true) by (apply okey_eqb_iff; split; reflexivity).
+    now rewrite E.
+  - destruct (okey_eqb x (r_key o) (r_mmr o)) eqn:E.
+    + exfalso. apply Hx. apply okey_eqb_iff in E as [A B]. apply in_map_iff. exists o. split; [|exact Hin].
+      unfold okey. congruence.
+    + now apply IH.
+Qed.
+
+(** C04 (refresh is exact, step form): in every well-formed wallet, after the node's answers
+    are applied (tip not below the last confirmed height), every record the refresh looks at
+    has the status those answers dictate; value, owner and coinbase flag are unchanged. *)
+Theorem refresh_exact w parent all tip p km q :
+  WF w -> lookup (w_confh w) parent <= tip ->
+  In q (refresh_set w parent all) ->
+  let w' := refresh_apply w parent all tip p km in
+  let rev := reverted_ids w parent (refresh_set w parent all) p km in
+  exists o', get_out (w_outs w') (r_key q) (r_mmr q) = Some o'
+     /\ r_status o' = refreshed_status p rev q /\ r_value o' = r_value q /\ r_root o' = r_root q
+     /\ r_cb o' = r_cb q.
+Proof.
+  intros Hwf Hh Hin. cbn zeta. unfold refresh_apply.
+  set (qs := refresh_set w parent all) in *. set (rev := reverted_ids w parent qs p km).
+  assert (E : tip <? lookup (w_confh w) parent = false) by lia. rewrite E.
+  assert (Hnq : NoDup (map okey qs)) by (apply nodup_filter_keys; exact Hwf).
+  assert (Hgq : forall q0, In q0 qs -> get_out (w_outs w) (r_key q0) (r_mmr q0) = Some q0).
+  { intros q0 Hq0. apply get_out_of_in; [exact Hwf|]. apply filter_In in Hq0 as [H _]. exact H. }
+  destruct (fold_apply_exact parent tip p rev qs w Hnq Hgq q Hin) as (o' & A & B & C & D & F).
+  exists o'. cbn [w_outs with_confh with_log]. auto.
+Qed.
+
+(** hence: a queried record is Unspent or Locked after the refresh exactly when the node
+    reports its commitment in the UTXO set — for records that were Unspent, Unconfirmed or
+    Reverted, and for Locked ones not caught by the reverted-kernel rule *)
+Theorem refresh_matches_utxo w parent all tip p km q :
+  WF w -> lookup (w_confh w) parent <= tip ->
+  In q (refresh_set w parent all) ->
+  (r_status q = Locked ->
+     match r_tx q with
+     | Some i => existsb (N.eqb i) (reverted_ids w parent (refresh_set w parent all) p km) = false
+     | None => True end) ->
+  exists o', get_out (w_outs (refresh_apply w parent all tip p km)) (r_key q) (r_mmr q) = Some o'
+    /\ ((r_status o' = Unspent \/ r_status o' = Locked)
+        <-> present_height p (r_key q) (r_mmr q) <> None).
+Proof.
+  intros Hwf Hh Hin Hlk.
+  destruct (refresh_exact w parent all tip p km q Hwf Hh Hin) as (o' & A & B & _).
+  exists o'. split; [exact A|]. rewrite B. unfold refreshed_status.
+  assert (Hns : r_status q <> Spent).
+  { apply filter_In in Hin as [_ Hf]. apply andb_true_iff in Hf as [Hf _].
+    apply andb_true_iff in Hf as [_ Hf]. destruct (r_status q); cbn in Hf; try discriminate; discriminate. }
+  destruct (present_height p (r_key q) (r_mmr q)) as [h|].
+  - split; [intros _; discriminate|intros _].
+    destruct (r_status q); cbn; auto. contradiction.
+  - split; [|intros H; contradiction].
+    intros Hs. exfalso.
+    destruct (negb (r_cb q) && _) eqn:Erev.
+    + destruct (r_status q) eqn:Es; cbn in Hs; destruct Hs as [Hs|Hs]; try discriminate.
+      apply andb_true_iff in Erev as [_ Erev]. specialize (Hlk eq_refl).
+      destruct (r_tx q); [congruence|discriminate].
+    + destruct (r_status q) eqn:Es; cbn in Hs; destruct Hs as [Hs|Hs]; try discriminate.
+Qed.
+
+(** an account's refresh never changes a record of another account *)
+Theorem refresh_apply_other_account w parent all tip p km k m o :
+  WF w -> get_out (w_outs w) k m = Some o -> r_root o <> parent ->
+  get_out (w_outs (refresh_apply w parent all tip p km)) k m = Some o.
+Proof.
+  intros Hwf Hg Hr. unfold refresh_apply. destruct (tip <? _); [exact Hg|].
+  cbn [w_outs with_confh with_log]. rewrite fold_apply_get_other; [exact Hg|].
+  intros q Hq [A B]. apply filter_In in Hq as [Hq Hf].
+  pose proof (get_out_of_in _ _ Hwf Hq) as G. rewrite A, B, Hg in G. inversion G; subst.
+  apply andb_true_iff in Hf as [Hf _]. apply andb_true_iff in Hf as [Hf _]. apply Hr. lia.
 Qed.
